@@ -599,6 +599,10 @@ def run(ctx):
                    "append/replace/reset); plus every composition of N "
                    "events into successive appends (N<=8 quick/12 thorough, "
                    "<=3 parts up to N=23) x re-open x chunk configuration")
+    # one large input (30000 events) through this property's entry points
+    from .. import big
+    viols = list(viols) + big.violations("C01", ctx.scratch)
+    cov["big_input_events"] = big.N
     return {"level": LEVEL, "coverage": cov, "violations": viols,
             "vacuous": None if cov["states"] > 50 else "too few states",
             "assumptions": [
@@ -609,6 +613,9 @@ def run(ctx):
 
 
 def replay(case, ctx):
+    if case.get("kind") == "big":
+        from .. import big
+        return big.violations("C01", ctx.scratch)
     c = case["config"]
     drv = WriterDriver(ctx.scratch, mode0=c["mode0"],
                        tiny_chunks=c["tiny_chunks"], seed=c["seed"],
